@@ -188,6 +188,23 @@ def step (st : St) (line : String) : St × String :=
     match parseQ st b1 u1 with
     | some a => (st, unop st op a)
     | none => (st, "bad-unit")
+  | ["vmconv2", b1, u1, b2, u2, b3, u3] =>
+    -- `(a -> b) -> c` as the VM evaluates and displays it
+    match parseQ st b1 u1, parseQ st b2 u2, parseQ st b3 u3 with
+    | some a, some b, some c =>
+      (st, match vmConvertDisplay st.tbl a b with
+        | .error _ => "err incompatible"
+        | .ok d1 => match vmConvertDisplay st.tbl d1.q c with
+          | .error _ => "err incompatible"
+          | .ok d2 => showQ st d2.q ++ (match d2.target with | none => "" | some t => " -> " ++ showQ st t))
+    | _, _, _ => (st, "bad-unit")
+  | ["vmconv", b1, u1, b2, u2] =>
+    match parseQ st b1 u1, parseQ st b2 u2 with
+    | some a, some b =>
+      (st, match vmConvertDisplay st.tbl a b with
+        | .error _ => "err incompatible"
+        | .ok d => showQ st d.q ++ (match d.target with | none => "" | some t => " -> " ++ showQ st t))
+    | _, _ => (st, "bad-unit")
   | ["assert3", b1, u1, b2, u2, b3, u3] =>
     match parseQ st b1 u1, parseQ st b2 u2, parseQ st b3 u3 with
     | some a, some b, some e => (st, match assertEq3 st.tbl a b e with
